@@ -6,6 +6,7 @@
 //! Every case is announced (written to $BVERIF_ANNOUNCE/<thread>.json) before it is evaluated,
 //! so that the engine can attribute an abort or stack overflow of this process to a case.
 
+mod c01;
 mod c07;
 mod c08;
 mod c14;
@@ -59,6 +60,7 @@ static SKIP: std::sync::OnceLock<Vec<u64>> = std::sync::OnceLock::new();
 
 fn run_prop(prop: &str, ctx: &Ctx) -> Vec<LayerReport> {
     match prop {
+        "C01" => c01::run(ctx),
         "C07" => c07::run(ctx),
         "C08" => c08::run(ctx),
         "C14" => c14::run(ctx),
@@ -74,6 +76,7 @@ fn run_prop(prop: &str, ctx: &Ctx) -> Vec<LayerReport> {
 
 fn replay(prop: &str, layer: &str, case: &serde_json::Value) -> Result<(String, Verdict), String> {
     match prop {
+        "C01" => c01::replay(layer, case),
         "C07" => c07::replay(layer, case),
         "C08" => c08::replay(layer, case),
         "C14" => c14::replay(layer, case),
